@@ -1,6 +1,7 @@
 import Pyunicorn.Model.Proto
 import Pyunicorn.Model.LineDist
 import Pyunicorn.Model.LineDistSeq
+import Pyunicorn.Model.LineDistMethods
 /-! Line-protocol driver: one request per line on stdin, one answer per line.
 The histogram requests are answered by the kernels *regenerated from the source*
 (`Generated/StructC08.lean`); `Properties/C08.lean` proves them equal to the hand model. -/
@@ -63,6 +64,17 @@ def answer (toks : List String) : String :=
   | ["xmatrix", rnd, dim, mv, e, eps] =>
       let emb := xMat e
       s!"{showBoolMat (fixedThresholdX (rndOf rnd) emb (x? eps) dim.toNat! (mv == "1"))} {showBools (missingMaskX emb)}"
+  -- round 5: the public methods as wholes, both storage modes:
+  -- `diagline_dist() vertline_dist() RR-numerator` for sparse_rqa = False, then True, then
+  -- `white_vertline_dist()` of the matrix mode and of the sequential mode (`raise`)
+  | ["xmethods", rnd, dim, mv, e, eps] =>
+      let o (sp : Bool) : RP := ⟨xMat e, x? eps, dim.toNat!, mv == "1", sp⟩
+      let r := rndOf rnd
+      let one (sp : Bool) : String :=
+        s!"{showNats (diaglineMethod r (o sp))} {showNats (vertlineMethod r (o sp))} {recurrenceRateNum r (o sp)}"
+      let w (sp : Bool) : String := match whiteVertlineMethod r (o sp) with
+        | some h => showNats h | none => "raise"
+      s!"{one false} {one true} {w false} {w true}"
   -- round 5: the rounding itself, `|a - b|` of the pairs (or of `q - 0`) rounded to binary64
   | ["rnd64", d] => showRats ((pairs d).map fun (a, b) => rnd64 (if a ≤ b then b - a else a - b))
   -- the hand model (round 1), kept executable
